@@ -84,7 +84,7 @@ pub fn algos(all_levels: bool) -> Vec<Algo> {
     v
 }
 
-pub const CONTENTS: [&str; 6] = ["zeros", "ff", "counter", "lcg", "phrase", "blocks"];
+pub const CONTENTS: [&str; 11] = ["zeros", "ff", "counter", "lcg", "phrase", "blocks", "gzip-blob", "zlib-blob", "zstd-blob", "lz4-blob", "brotli-blob"];
 
 pub fn content(kind: &str, n: usize) -> Vec<u8> {
     match kind {
@@ -101,6 +101,48 @@ pub fn content(kind: &str, n: usize) -> Vec<u8> {
                 .collect()
         }
         "phrase" => b"the quick brown fox jumps over the lazy dog. ".iter().cycle().take(n).copied().collect(),
+        // payloads that are themselves compressed streams (they start with the algorithm's magic
+        // bytes and do not shrink), produced with the compression crates directly - not through
+        // the code under test - and cut or repeated to n bytes
+        k if k.ends_with("-blob") => {
+            use std::io::Write;
+            if n == 0 {
+                return Vec::new();
+            }
+            let src = content("lcg", n.max(64));
+            let mut z: Vec<u8> = match k {
+                "gzip-blob" => {
+                    let mut e = flate2::write::GzEncoder::new(Vec::new(), flate2::Compression::default());
+                    e.write_all(&src).unwrap();
+                    e.finish().unwrap()
+                }
+                "zlib-blob" => {
+                    let mut e = flate2::write::ZlibEncoder::new(Vec::new(), flate2::Compression::default());
+                    e.write_all(&src).unwrap();
+                    e.finish().unwrap()
+                }
+                "zstd-blob" => ::zstd::encode_all(&src[..], 3).unwrap(),
+                "lz4-blob" => {
+                    let mut e = lz4_flex::frame::FrameEncoder::new(Vec::new());
+                    e.write_all(&src).unwrap();
+                    e.finish().unwrap()
+                }
+                _ => {
+                    let mut out = Vec::new();
+                    {
+                        let mut e = ::brotli::CompressorWriter::new(&mut out, 4096, 5, 22);
+                        e.write_all(&src).unwrap();
+                    }
+                    out
+                }
+            };
+            while z.len() < n {
+                let more = z.clone();
+                z.extend_from_slice(&more);
+            }
+            z.truncate(n);
+            z
+        }
         _ => (0..n).map(|i| if (i / 61) % 2 == 0 { 0xAA } else { (i % 7) as u8 }).collect(),
     }
 }
@@ -120,6 +162,50 @@ pub fn check_compress(a: &Algo, kind: &str, n: usize) -> Result<usize, (String, 
         Ok((_, back)) => Err((format!("lossy:{}", a.name), format!("{a:?} on {kind}/{n}: decompressed {} bytes differ from the {} input bytes", back.len(), input.len()))),
         Err(e) => Err((format!("error:{}", a.name), format!("{a:?} on {kind}/{n}: {e}"))),
     }
+}
+
+/// One compressor / decompressor instance is used for a whole sequence of payloads, some of
+/// which are damaged on the way: every undamaged one must still come back identical (the
+/// publisher and subscriber keep one instance per stream).
+pub fn check_sequence(a: &Algo) -> Result<usize, (String, String)> {
+    let r = guarded(|| -> Result<usize, String> {
+        let c = compressor(a);
+        let d = decompressor(a);
+        let plains: Vec<Bytes> = vec![Bytes::from(content("phrase", 1200)), Bytes::from(content("lcg", 300)), Bytes::new(), Bytes::from(content("counter", 70_000)), Bytes::from(content("zeros", 5000))];
+        let mut n = 0;
+        for round in 0..3 {
+            for (i, p) in plains.iter().enumerate() {
+                let z = c.compress(p.clone()).map_err(|e| format!("compress: {e}"))?;
+                // a damaged copy first: truncated, corrupted in the body, corrupted trailer
+                let mut damaged: Vec<Bytes> = Vec::new();
+                if z.len() > 4 {
+                    damaged.push(z.slice(..z.len() - 3));
+                    damaged.push(z.slice(..z.len() / 2));
+                    let mut b = z.to_vec();
+                    let k = b.len() / 2;
+                    b[k] ^= 0xff;
+                    damaged.push(Bytes::from(b));
+                    let mut b = z.to_vec();
+                    let k = b.len() - 1;
+                    b[k] ^= 0x55;
+                    damaged.push(Bytes::from(b));
+                }
+                let dmg = &damaged[..damaged.len().min(1 + (round + i) % 4)];
+                for x in dmg {
+                    let _ = d.decompress(x.clone()); // an error or garbage is fine here; a panic is not
+                    n += 1;
+                }
+                let back = d.decompress(z).map_err(|e| format!("decompress of an undamaged frame after {} damaged ones: {e}", dmg.len()))?;
+                if &back != p {
+                    return Err(format!("after damaged frames were rejected, an undamaged {}-byte payload came back as {} bytes{}", p.len(), back.len(), if back.ends_with(p) { " (stale bytes in front)" } else { "" }));
+                }
+                n += 1;
+            }
+        }
+        Ok(n)
+    })
+    .map_err(|(m, l)| (format!("panic:{}", a.name), format!("{a:?} sequence: panicked: {m} at {l}")))?;
+    r.map_err(|e| (format!("sequence:{}", a.name), format!("{a:?}: {e}")))
 }
 
 /// Independent UTF-8 validator (RFC 3629 table), not `std::str::from_utf8`.
@@ -267,6 +353,16 @@ pub fn run(tier: &str) {
     let compressed_smaller = ratios.lock().unwrap().iter().filter(|(n, z)| z < n).count();
     let mut samples: Vec<Value> = jobs.iter().step_by((jobs.len() / 8).max(1)).take(8).map(|(a, k, n)| json!({"family": "compress", "algo": a.name, "level": format!("{:?}", a.level), "content": k, "size": n})).collect();
     let mut found = found.into_inner().unwrap();
+
+    // one instance, many payloads, some damaged in between
+    for a in algos(false) {
+        evaluations += 1;
+        nontrivial += 1;
+        if let Err((clause, msg)) = check_sequence(&a) {
+            found.push((clause, msg, json!({"family": "sequence", "algo": a.name, "level": format!("{:?}", a.level)})));
+        }
+    }
+    samples.push(json!({"family": "sequence", "algo": "gzip", "steps": "5 payloads x 3 rounds, 1-4 damaged copies before each"}));
 
     // string codec: all strings of length <=3 over a 10-character alphabet
     let alpha = ['a', 'Z', '0', ' ', '\n', '\0', 'é', '日', '😀', '\u{301}'];
@@ -434,7 +530,7 @@ pub fn run(tier: &str) {
     let coverage = json!({
         "evaluations": evaluations,
         "distinct_nontrivial": nontrivial,
-        "rule": "compression grid: {gzip, zlib, zstd, brotli generic/text/font} x {default, fastest, balanced, highest_ratio} (+ every explicit level: deflate 0-9, zstd 0-22, brotli 0-11) + lz4, x 6 content classes (zeros, 0xff, counter, fixed-seed LCG, repeated phrase, alternating blocks) x sizes (quick: presets on {0,1,2,3,15,16,65537,2^20}, explicit levels on {0,1,17,4097}; thorough: everything on all 18 sizes up to 2^20); string codec on all strings of length <=3 over a 10-character alphabet; bytes codec on all byte strings of length <=2; bincode on boundary values of 12 types; all byte strings of length <=2 (thorough 3) plus all strings of length 3-4 over 19 UTF-8 boundary bytes against an independent UTF-8 validator; wire composition on all batches of <=3 items from a 4-string pool x 14 compression settings. All cells are distinct by construction; non-trivial = non-empty input",
+        "rule": "compression grid: {gzip, zlib, zstd, brotli generic/text/font} x {default, fastest, balanced, highest_ratio} (+ every explicit level: deflate 0-9, zstd 0-22, brotli 0-11) + lz4, x 11 content classes (zeros, 0xff, counter, fixed-seed LCG, repeated phrase, alternating blocks, and the output of each of the five compressors as payload) x sizes (quick: presets on {0,1,2,3,15,16,65537,2^20}, explicit levels on {0,1,17,4097}; thorough: everything on all 18 sizes up to 2^20); string codec on all strings of length <=3 over a 10-character alphabet; bytes codec on all byte strings of length <=2; bincode on boundary values of 12 types; one compressor/decompressor instance per algorithm and preset driven through 15 payloads with 1-4 damaged copies (truncated, corrupted body, corrupted trailer) before each; all byte strings of length <=2 (thorough 3) plus all strings of length 3-4 over 19 UTF-8 boundary bytes against an independent UTF-8 validator; wire composition on all batches of <=3 items from a 4-string pool x 14 compression settings. All cells are distinct by construction; non-trivial = non-empty input",
         "exhaustive": true,
         "compress_cells": jobs.len(),
         "cells_where_output_is_smaller_than_input": compressed_smaller,
